@@ -85,3 +85,64 @@ def build_ekore_harness(scratch_dir, jobs=8, timeout=1500):
     if not binary.exists():
         raise BuildFailed("binary missing after build", (p.stderr or "")[-2000:])
     return binary, (p.stderr or "")[-1500:]
+
+
+# --------------------------------------------------------------------- C54
+VENDORED = ["thiserror-1.0.69", "thiserror-impl-1.0.69", "proc-macro2-1.0.106", "quote-1.0.45", "syn-2.0.117", "unicode-ident-1.0.24"]
+SHIMS = {"lz4_flex": "lz4_flex-shim", "ndarray": "ndarray-shim", "ndarray-npy": "ndarray-npy-shim", "yaml-rust2": "yaml-rust2-shim", "tar": "tar-shim"}
+
+
+def _registry_dirs():
+    home = pathlib.Path(os.environ.get("CARGO_HOME", pathlib.Path.home() / ".cargo")) / "registry"
+    srcs = sorted((home / "src").glob("*")) if (home / "src").exists() else []
+    caches = sorted((home / "cache").glob("*")) if (home / "cache").exists() else []
+    return srcs, caches
+
+
+def _vendor(ws: pathlib.Path):
+    """Directory source with the real thiserror and its proc-macro chain, taken from the local registry cache."""
+    srcs, caches = _registry_dirs()
+    vend = ws / "vendor"
+    vend.mkdir()
+    for name in VENDORED:
+        src = next((s / name for s in srcs if (s / name).exists()), None)
+        crate = next((c / f"{name}.crate" for c in caches if (c / f"{name}.crate").exists()), None)
+        if src is None:
+            raise BuildFailed(f"{name} is not in the local cargo registry: thiserror cannot be built offline")
+        shutil.copytree(src, vend / name, ignore=shutil.ignore_patterns(".cargo-ok", ".cargo_vcs_info.json"))
+        sha = hashlib.sha256(crate.read_bytes()).hexdigest() if crate is not None else "0" * 64
+        (vend / name / ".cargo-checksum.json").write_text('{"files":{},"package":"%s"}' % sha)
+    (ws / ".cargo").mkdir()
+    (ws / ".cargo" / "config.toml").write_text(f'[source.crates-io]\nreplace-with = "verif-vendored"\n\n[source.verif-vendored]\ndirectory = "{vend}"\n\n[net]\noffline = true\n')
+
+
+def build_dekoder_harness(scratch_dir, jobs=8, timeout=1500):
+    """Build /verif/rust/dekoder-harness against $VERIF_REPO/crates/dekoder and the shim crates."""
+    ws = pathlib.Path(scratch_dir) / "ws"
+    src = REPO / "crates" / "dekoder" / "src"
+    if not src.exists():
+        raise BuildFailed(f"{src} does not exist")
+    ws.mkdir(parents=True)
+    members = ["dekoder", "dekoder-harness"] + list(SHIMS)
+    (ws / "Cargo.toml").write_text("[workspace]\nmembers = [%s]\nresolver = \"2\"\n\n[profile.dev]\ndebug = false\nopt-level = 1\n" % ", ".join(f'"{m}"' for m in members))
+    for dep, d in SHIMS.items():
+        shutil.copytree(RUST / d, ws / dep)
+    shutil.copytree(RUST / "dekoder-harness", ws / "dekoder-harness")
+    dk = ws / "dekoder"
+    dk.mkdir()
+    os.symlink(src, dk / "src")  # the repository sources themselves
+    deps = "\n".join(f'{dep} = {{ path = "../{dep}" }}' for dep in SHIMS)
+    (dk / "Cargo.toml").write_text(f'[package]\nname = "dekoder"\nversion = "0.0.1"\nedition = "2024"\n\n[lib]\npath = "src/lib.rs"\n\n[dependencies]\n{deps}\nthiserror = "1.0.63"\n')
+    _vendor(ws)
+    target = pathlib.Path(scratch_dir) / "target"
+    cmd = ["cargo", "build", "--offline", "-p", "dekoder-harness", "-j", str(jobs)]
+    try:
+        p = subprocess.run(cmd, cwd=ws, env=_env(target), capture_output=True, text=True, timeout=timeout)
+    except subprocess.TimeoutExpired:
+        raise BuildFailed(f"cargo build exceeded {timeout}s")
+    if p.returncode != 0:
+        raise BuildFailed("cargo build failed", (p.stderr or "")[-6000:])
+    binary = target / "debug" / "dekoder-harness"
+    if not binary.exists():
+        raise BuildFailed("binary missing after build", (p.stderr or "")[-2000:])
+    return binary, (p.stderr or "")[-1500:]
